@@ -400,7 +400,7 @@ class Plane:
     def line_xsections(self, pts, rays):
         k = vg.shape.check(locals(), "pts", (-1, 3))
         vg.shape.check(locals(), "rays", (k, 3))
-        denoms = np.dot(rays, self.normal)
+        denoms = np.dot(rays, self.normal).astype(np.float64)
         denom_is_zero = denoms == 0
         denoms[denom_is_zero] = np.nan
         p = np.dot(self.reference_point - pts, self.normal) / denoms
